@@ -102,3 +102,16 @@ impl PathS {
 }
 // Watchexec { event_input, .. }
 pub struct Watchexec { pub event_input: EvTx }
+
+// `xs.iter().filter_map(C)` (R10d): C comes with its ghost twin; the result lists, in order, the Some(..) values
+pub struct FmIter<U> { pub v: Ghost<Seq<U>> }
+pub open spec fn filter_map_seq<T, U>(s: Seq<T>, f: spec_fn(T) -> Option<U>) -> Seq<U> decreases s.len() {
+    if s.len() == 0 { Seq::empty() } else {
+        match f(s.last()) { Some(u) => filter_map_seq(s.drop_last(), f).push(u), None => filter_map_seq(s.drop_last(), f) }
+    }
+}
+#[verifier::external_body]
+pub fn vfilter_map<T, U, F: Fn(&T) -> Option<U>>(xs: &Vec<T>, c: F, Ghost(f): Ghost<spec_fn(T) -> Option<U>>) -> (r: FmIter<U>)
+    requires forall|x: T| c.requires((&x,)), forall|x: T, y: Option<U>| c.ensures((&x,), y) ==> y == f(x),
+    ensures r.v@ == filter_map_seq(xs@, f),
+{ unimplemented!() }
